@@ -68,4 +68,7 @@ def readAllIdleBranchesShareRekeyTest : Bool := true
 /-- the methods of transport.py that call `_send_message` directly (not through the clear_to_send gate) -/
 def sendMessageCallers : List String := ["Transport._send_user_message", "Transport.run", "Transport._send_kex_init", "Transport._activate_outbound", "Transport._parse_global_request", "Transport._parse_channel_open", "ServiceRequestingTransport.ensure_session"]
 
+/-- Transport._send_kex_init sets `in_kex` unconditionally, before it writes KEXINIT -/
+def kexInitMarksExchangeOpen : Bool := true
+
 end PV.Generated.C11
